@@ -267,6 +267,8 @@ class Gen:
                 if rng.random() < 0.25:
                     # a condition that is an expression over the options (its keys are part of what the case reads)
                     c_[0] = rng.choice(["eqopt:", "eqopt:", "eqopt!:"]) + rng.choice(["B", "C", "S.X", "T.X"])
+                    if self.allow_datasets and self.program["datasets"] and rng.random() < 0.4:
+                        c_[0] = "eqds:" + rng.choice(list(self.program["datasets"]))  # a condition computed by a dataset
             s = {"k": "case", "disp": self.expr(d), "cases": cases, "n": n}
             if rng.random() < 0.6:
                 s["default"] = self.expr(d)
